@@ -12,6 +12,7 @@ from __future__ import annotations
 
 import ast
 
+from sa.flow import must_pass
 from sa.load import walk_no_nested, AnalysisError, Program, callee_name, dotted, norm
 
 SRC_ATTRS = {"commit_time", "author_time"}
@@ -199,6 +200,8 @@ def run(prog: Program, rep, tier="quick"):
                       "timestamp-tainted test")
     rep.rule("R13.2", "walk.py: timestamp-tainted terminations only under an exempt option test (since/until/exclusion); "
                       "_topo_reorder reads no timestamp")
+    rep.rule("R13.6", "walk.py has one source of ancestry: the walker's get_parents (no direct .parents, helpers get the caller's function)")
+    rep.rule("R13.5", "the redundancy filter's ancestor walk is complete: only visited parents are not pushed")
     rep.rule("R13.3", "merge-base candidates pass a redundancy filter when there is more than one; commit-graph extra-edge list is "
                       "terminated on the element the loop iterates")
     rep.not_decided += ["that the flag propagation yields the maximal common ancestors for every exploration order",
@@ -276,6 +279,80 @@ def run(prog: Program, rep, tier="quick"):
            bool(filters) and bool(calls) and not any(x in r for x in rets),
            "the candidates collected by the time-ordered painting loop are returned as they are: with tied or backward timestamps "
            "a non-maximal common ancestor is reported as an additional merge base (and can_fast_forward answers False)", fl.node.lineno)
+    # R13.5 the redundancy filter's walk is complete: below each candidate every parent that was not visited yet is
+    # pushed.  (The filter skips candidates already known to be redundant; that is only sound when the walk that made
+    # them redundant went on below them.)
+    gm = prog.module("dulwich/graph.py")
+    n5 = 0
+    for fname in filters:
+        ff = gm.funcs[fname]
+        g5 = cfg_of(prog, ff)
+        for loop in [x for x in ast.walk(ff.node) if isinstance(x, ast.For) and isinstance(x.target, ast.Name)]:
+            v = loop.target.id
+            pushes = [i for i, n in g5.nodes.items() for c in node_calls(n) if callee_name(c) in ("append", "heappush", "appendleft", "add")
+                      and any(isinstance(a, ast.Name) and a.id == v for a in c.args) and isinstance(c.func, ast.Attribute)
+                      and isinstance(c.func.value, ast.Name) and c.func.attr in ("append", "appendleft")]
+            if not pushes:
+                continue
+            n5 += 1
+            visited = {c.func.value.id for s_ in loop.body for c in ast.walk(s_) if isinstance(c, ast.Call) and isinstance(c.func, ast.Attribute)
+                       and c.func.attr == "add" and isinstance(c.func.value, ast.Name) and any(isinstance(a, ast.Name) and a.id == v for a in c.args)}
+            # a visited set is one that is both tested for the loop variable and gets it added right after the miss
+            vt = {i for i, n in g5.nodes.items() if n.kind == "test" and isinstance(n.ast, ast.Compare) and len(n.ast.ops) == 1
+                  and isinstance(n.ast.ops[0], ast.In) and isinstance(n.ast.left, ast.Name) and n.ast.left.id == v
+                  and isinstance(n.ast.comparators[0], ast.Name) and n.ast.comparators[0].id in visited
+                  and any(isinstance(c, ast.Call) and isinstance(c.func, ast.Attribute) and c.func.attr == "add" and isinstance(c.func.value, ast.Name)
+                          and c.func.value.id == n.ast.comparators[0].id
+                          for b, l in g5.succ[i] if l == "false" for c in node_calls(g5.nodes[b]))}
+            heads = [i for i, n in g5.nodes.items() if n.kind == "for_iter" and n.ast is loop]
+            body0 = [b for h in heads for b, l in g5.succ[h] if l in ("iter", "true", "next", "body")] or \
+                [i for i, n in g5.nodes.items() if n.ast is loop.body[0]]
+            first = g5.nodes_of(loop.body[0]) or body0
+            bad = must_pass(g5, heads, set(pushes), start=first, edge_ok=lambda a, b, l: not (a in vt and l == "true"))
+            rep.ob("R13.5", gm.rel, ff.qual, f"every not yet visited `{v}` is pushed (the walk below a candidate is complete)", bool(heads) and not bad,
+                   "an iteration of the parents loop can end without pushing the parent although it was not visited: ancestors below it "
+                   "are never reached, so a candidate lying only below it survives as an additional merge base",
+                   loop.lineno)
+    if n5 < 1:
+        raise AnalysisError("no worklist loop found in the redundancy filter")
+    # R13.6 one source of ancestry in walk.py: the walker's get_parents (which knows grafts, shallow boundaries and the
+    # commit-graph).  `.parents` of a commit object is read only in the default of a get_parents parameter, and a helper
+    # that takes a get_parents parameter is always handed the caller's function, never left to its default.
+    wm = prog.module("dulwich/walk.py")
+    direct = []
+    for x in ast.walk(wm.tree):
+        if isinstance(x, ast.Attribute) and x.attr == "parents" and isinstance(x.ctx, ast.Load):
+            p_ = wm.parents.get(x)
+            in_default = False
+            while p_ is not None:
+                if isinstance(p_, ast.Lambda):
+                    pp = wm.parents.get(p_)
+                    in_default = isinstance(pp, ast.arguments)
+                    break
+                p_ = wm.parents.get(p_)
+            if not in_default:
+                direct.append(x)
+    rep.ob("R13.6", wm.rel, (wm.enclosing_func(direct[0]).qual if direct and wm.enclosing_func(direct[0]) else "<module>"),
+           "`.parents` of a commit is read only as the default of a get_parents parameter", not direct,
+           f"`{norm(direct[0])}` bypasses the walker's get_parents: grafts and shallow boundaries are ignored here while the rest of "
+           f"the walk honours them" if direct else "", direct[0].lineno if direct else 0)
+    helpers = {q: f for q, f in wm.funcs.items() if "get_parents" in [a.arg for a in f.node.args.args + f.node.args.kwonlyargs] and "." not in q}
+    n6 = 0
+    for q, f in wm.funcs.items():
+        for c in [c for c in ast.walk(f.node) if isinstance(c, ast.Call) and isinstance(c.func, ast.Name) and c.func.id in helpers]:
+            h = helpers[c.func.id]
+            names = [a.arg for a in h.node.args.args]
+            pos = names.index("get_parents") if "get_parents" in names else None
+            arg = next((k.value for k in c.keywords if k.arg == "get_parents"), None)
+            if arg is None and pos is not None and len(c.args) > pos:
+                arg = c.args[pos]
+            has_own = f.cls is not None or "get_parents" in [a.arg for a in f.node.args.args]
+            n6 += 1
+            rep.ob("R13.6", wm.rel, q, f"`{norm(c, 60)}` is handed the caller's get_parents", arg is not None and "get_parents" in norm(arg) or not has_own,
+                   f"{c.func.id}() falls back to `commit.parents`: the order it computes ignores grafts/shallow parents that the queue "
+                   f"walked, so a grafted parent can be emitted before its child", c.lineno)
+    if n6 < 1 or len(helpers) < 1:
+        raise AnalysisError("walk.py: no helper with a get_parents parameter / no call of it found")
     # the commit-graph writer flags the last extra edge of the sequence it iterates (the reader stops there)
     from rules import c14
     cgm = prog.module("dulwich/commit_graph.py")
